@@ -1052,55 +1052,240 @@ Theorem closed_only_when_really_empty_hist s0 h e q a : let s := run s0 h in
   forall pg ph, pgl s !! pg <> Some (q, ph).
 Proof. intros s C B. apply closed_only_when_really_empty. by apply idx_complete_run. Qed.
 
-(* ---------- history forms: every step of every history from every initial state ---------- *)
-Lemma only_by_request_hist s0 h e q a b : let s := run s0 h in
+(* ---------- provenance of requests (clause "only in response to commands or the parent's state") ---------- *)
+(* a request born of parent/child propagation inside the controller *)
+Definition prop_req (r : req) : Prop :=
+  r_ev r = EvNone /\ r_tries r = 0%nat /\ (r_act r = AOpen \/ r_act r = AClose).
+(* a handler appends only propagation requests to the work queue *)
+Definition emits (s s' : st) : Prop := exists l, wq s' = wq s ++ l /\ Forall prop_req l.
+
+Lemma emits_refl s : emits s s.
+Proof. exists []. split; [by rewrite app_nil_r|constructor]. Qed.
+Lemma emits_trans a b c : emits a b -> emits b c -> emits a c.
+Proof.
+  intros (l1&H1&F1) (l2&H2&F2). exists (l1 ++ l2). split; [rewrite H2, H1; by rewrite app_assoc|].
+  apply Forall_app. done.
+Qed.
+Lemma emits_push s q a : a = AOpen \/ a = AClose -> emits s (push s (mkReq q a EvNone 0)).
+Proof. intros Ha. exists [mkReq q a EvNone 0]. split; [done|]. constructor; [|constructor]. repeat split; done. Qed.
+Lemma emits_same_wq s s' : wq s' = wq s -> emits s s'.
+Proof. intros H. exists []. split; [by rewrite app_nil_r|constructor]. Qed.
+
+Lemma emits_push_srv s m q a :
+  a = AOpen \/ a = AClose -> emits s (push (set_srv s m) (mkReq q a EvNone 0)).
+Proof. intros Ha. exists [mkReq q a EvNone 0]. split; [done|]. constructor; [|constructor]. repeat split; done. Qed.
+
+Lemma sync_hier_emits s q view s' ok : sync_hier s q view = (s', ok) -> emits s s'.
+Proof.
+  unfold sync_hier. intros H.
+  repeat case_match; simplify_eq; try apply emits_refl;
+  first [apply emits_push_srv; auto | apply emits_push; auto].
+Qed.
+
+Lemma fold_open_emits (l : list (positive * qobj)) : forall s,
+  emits s (fold_left (fun s' cc => if cbp_true (q_ann (snd cc)) then push s' (mkReq (fst cc) AOpen EvNone 0) else s') l s).
+Proof.
+  induction l as [|cc l IH]; intros s; cbn [fold_left]; [apply emits_refl|].
+  destruct (cbp_true (q_ann cc.2)); [|apply IH].
+  eapply emits_trans; [apply (emits_push s (fst cc) AOpen); auto|apply IH].
+Qed.
+
+Lemma open_hier_emits s q view s' ok : open_hier s q view = (s', ok) -> emits s s'.
+Proof.
+  unfold open_hier. intros H. case_match; simplify_eq; [apply emits_refl|apply fold_open_emits].
+Qed.
+
+Lemma close_children_emits l : forall s s' ok, close_children s l = (s', ok) -> emits s s'.
+Proof.
+  induction l as [|[c co] l IH]; intros s s' ok H; simpl in H; simplify_eq; [apply emits_refl|].
+  destruct (is_closedish (q_state co)); [by eapply IH|].
+  destruct (patch_ann (srv s) c (q_ann co) true) as [m|] eqn:E; simplify_eq; [|apply emits_refl].
+  apply IH in H. eapply emits_trans; [|exact H]. apply emits_push_srv; auto.
+Qed.
+
+Lemma sync_queue_emits s q view fn s' ok : sync_queue s q view fn = (s', ok) -> emits s s'.
+Proof.
+  unfold sync_queue. intros H.
+  assert (K : forall (s1 : st) v1 s'' ok', wq s1 = wq s ->
+            (let n := length (pgs_of (idx s1) q) in
+             let s2 := set_idx s1 (filter (fun qp => negb (bool_decide (fst qp = q) && bool_decide (pgl s1 !! snd qp = None))) (idx s1)) in
+             let new := fn n in
+             if bool_decide (new = q_state view) then sync_hier s2 q v1
+             else match apply_state (srv s2) q new with
+                  | None => (s2, false)
+                  | Some (m, o') => sync_hier (set_srv s2 m) q o'
+                  end) = (s'', ok') -> emits s s'').
+  { intros s1 v1 s'' ok' Hw HH. cbn zeta in HH.
+    destruct (bool_decide (fn (length (pgs_of (idx s1) q)) = q_state view)).
+    - apply sync_hier_emits in HH. eapply emits_trans; [|exact HH]. by apply emits_same_wq.
+    - destruct (apply_state _ _ _) as [[m o']|]; simplify_eq.
+      + apply sync_hier_emits in HH. eapply emits_trans; [|exact HH]. by apply emits_same_wq.
+      + by apply emits_same_wq. }
+  destruct (bool_decide (q = root) || bool_decide (is_Some (q_parent view))).
+  - eapply K; eauto.
+  - destruct (srv s !! q) as [o|]; simplify_eq; [|apply emits_refl].
+    eapply (K (set_srv s _)); eauto.
+Qed.
+
+Lemma open_queue_emits s q view s' ok : open_queue s q view = (s', ok) -> emits s s'.
+Proof.
+  unfold open_queue. intros H.
+  destruct (bool_decide (q_state view = SOpen)).
+  - simpl in H. destruct (patch_ann _ _ _ _); simplify_eq; [by apply emits_same_wq|apply emits_refl].
+  - destruct (open_hier s q view) as [s1 ok1] eqn:E1. apply open_hier_emits in E1.
+    destruct ok1; simpl in H; simplify_eq; [|done].
+    destruct (apply_state (srv s1) q SOpen) as [[m o']|]; simplify_eq; [|done].
+    destruct (patch_ann _ _ _ _); simplify_eq; (eapply emits_trans; [exact E1|by apply emits_same_wq]).
+Qed.
+
+Lemma close_queue_emits s q view fn s' ok : close_queue s q view fn = (s', ok) -> emits s s'.
+Proof.
+  unfold close_queue. intros H.
+  destruct (negb (is_closedish (q_state view)) && bool_decide (q = root)); simplify_eq; [apply emits_refl|].
+  destruct (if is_closedish (q_state view) then (s, true) else close_children s (children s q)) as [s1 ok1] eqn:E1.
+  assert (F1 : emits s s1).
+  { destruct (is_closedish (q_state view)); simplify_eq; [apply emits_refl|by eapply close_children_emits]. }
+  destruct ok1; simpl in H; simplify_eq; [|done].
+  destruct (bool_decide _); simplify_eq; [done|].
+  destruct (apply_state (srv s1) q _) as [[m o']|]; simplify_eq; [|done].
+  eapply emits_trans; [exact F1|by apply emits_same_wq].
+Qed.
+
+Lemma exec_emits s q view a s' ok : exec s q view a = (s', ok) -> emits s s'.
+Proof.
+  unfold exec. intros H.
+  destruct (q_state view), a;
+  try (by eapply sync_queue_emits; eauto);
+  try (by eapply open_queue_emits; eauto);
+  try (by eapply close_queue_emits; eauto);
+  simplify_eq; apply emits_refl.
+Qed.
+
+(* what a processing step appends to the work queue (the core of law 108): propagation
+   requests, then at most the retry of the processed request *)
+Theorem proc_emits s i r :
+  nth_error (wq s) i = Some r ->
+  exists l t, wq (proc s i).1 = remove_nth i (wq s) ++ l ++ t /\ Forall prop_req l /\ (t = [] \/ t = [retry r]).
+Proof.
+  intros Hn. unfold proc. rewrite Hn.
+  destruct (lst s !! r_q r) as [v|]; simpl.
+  2:{ exists [], []. rewrite !app_nil_r. split; [done|]. split; [constructor|by left]. }
+  destruct (exec _ _ _ _) as [s1 ok] eqn:E. apply exec_emits in E as (l&Hw&Hl). simpl in Hw.
+  destruct ok; simpl.
+  - exists l, []. rewrite app_nil_r. split; [done|]. split; [done|by left].
+  - destruct (_ || _); simpl.
+    + exists l, [retry r]. rewrite Hw. rewrite <- app_assoc. split; [done|]. split; [done|by right].
+    + exists l, []. rewrite app_nil_r. split; [done|]. split; [done|by left].
+Qed.
+
+(* handler-born requests (Event OutOfSync) are Sync requests: an invariant of every history *)
+Definition wq_wf (s : st) : Prop := Forall (fun r => r_ev r = EvOutOfSync -> r_act r = ASync) (wq s).
+
+Lemma Forall_remove_nth {A} (P : A -> Prop) i : forall l, Forall P l -> Forall P (remove_nth i l).
+Proof.
+  induction i as [|i IH]; intros [|x l] H; simpl; try done; inversion H; subst; [done|].
+  constructor; [done|by apply IH].
+Qed.
+
+Lemma wq_wf_push s r : wq_wf s -> (r_ev r = EvOutOfSync -> r_act r = ASync) -> wq_wf (push s r).
+Proof. intros H Hr. unfold wq_wf, push. simpl. apply Forall_app. split; [done|]. by constructor. Qed.
+
+Lemma wq_wf_step s e : wq_wf s -> wq_wf (step s e).1.
+Proof.
+  intros W. destruct e as [q a|pg q ph|pg q ph|pg|q p|q p|q|q|q|i]; simpl.
+  - apply wq_wf_push; [done|]. simpl. done.
+  - apply wq_wf_push; [done|]. done.
+  - repeat case_match; simpl; try done; apply wq_wf_push; done.
+  - repeat case_match; simpl; try done; apply wq_wf_push; done.
+  - repeat case_match; simpl; done.
+  - repeat case_match; simpl; done.
+  - done.
+  - repeat case_match; simpl; try done; apply wq_wf_push; done.
+  - repeat case_match; simpl; try done; apply wq_wf_push; done.
+  - destruct (nth_error (wq s) i) as [r|] eqn:Hn; [|unfold proc; by rewrite Hn].
+    destruct (proc_emits s i r Hn) as (l&t&Hw&Hl&Ht). unfold wq_wf. rewrite Hw.
+    assert (Hr : r_ev r = EvOutOfSync -> r_act r = ASync).
+    { unfold wq_wf in W. rewrite Forall_forall in W. apply W. eapply nth_error_In; eauto. }
+    apply Forall_app. split; [by apply Forall_remove_nth|]. apply Forall_app. split.
+    + eapply Forall_impl; [|exact Hl]. intros x (Hx&_). simpl. congruence.
+    + destruct Ht as [->| ->]; [constructor|]. constructor; [done|constructor].
+Qed.
+
+Lemma wq_wf_run h : forall s, wq_wf s -> wq_wf (run s h).
+Proof.
+  unfold run. induction h as [|e h IH]; intros s W; simpl; [done|]. apply IH. by apply wq_wf_step.
+Qed.
+
+(* HISTORY THEOREM (induction over the event list): along every history from a start
+   state whose pending handler-born requests are Syncs, a queue's state moves only while
+   a request for it is processed that stems from a command (Event CommandIssued), from
+   parent/child propagation (Event ""), or is a handler's Sync — and a handler's Sync moves
+   the state only to the Sync target of the state tables ("" -> Open, Closing -> Closed
+   when the index is empty, otherwise the state the lister shows) *)
+Theorem moves_only_on_command_or_parent s0 h e q a b : let s := run s0 h in
+  wq_wf s0 ->
   sst (srv s) q = Some a -> sst (srv (step s e).1) q = Some b -> a <> b ->
   exists r v, proc_of s e = Some (r, v) /\ r_q r = q /\
-              b = target (q_state v) (r_act r) (length (pgs_of (idx s) q)).
-Proof. exact (only_by_request (run s0 h) e q a b). Qed.
+    b = target (q_state v) (r_act r) (length (pgs_of (idx s) q)) /\
+    (r_ev r = EvCmd \/ r_ev r = EvNone \/ (r_ev r = EvOutOfSync /\ r_act r = ASync)).
+Proof.
+  intros s W Ha Hb Hab. destruct (only_by_request s e q a b) as (r&v&P&Hq&T); try done.
+  exists r, v. repeat split; try done.
+  pose proof (wq_wf_run h s0 W) as Wf. fold s in Wf.
+  apply proc_of_inv in P as (i&->&Hn&_).
+  unfold wq_wf in Wf. rewrite Forall_forall in Wf. specialize (Wf r (nth_error_In _ _ Hn)).
+  destruct (r_ev r); auto.
+Qed.
 
-Lemma sync_moves_hist s0 h e q a b : let s := run s0 h in
-  lst s !! q = srv s !! q ->
-  sst (srv s) q = Some a -> sst (srv (step s e).1) q = Some b -> a <> b ->
-  exists r v, proc_of s e = Some (r, v) /\ r_q r = q /\
-    (r_act r = AOpen \/ r_act r = AClose \/ (a = SEmpty /\ b = SOpen) \/ (a = SClosing /\ b = SClosed)).
-Proof. exact (sync_moves (run s0 h) e q a b). Qed.
+(* ---------- quiescent end states: what is FALSE (findings) ---------- *)
+Definition open3_init (st3 : qstate) (ann3 : ann) : st :=
+  let m : qmap := list_to_map [(1%positive, mkQ None SOpen None); (q2, mkQ (Some 1%positive) SOpen None);
+                               (q3, mkQ (Some q2) st3 ann3)] in
+  mkSt m m ∅ [] [] 3.
+(* close the parent and re-open it at once; strictly FIFO; the child's Open is processed
+   while the lister still shows the child Open *)
+Definition stuckW1_history : list ev :=
+  [ECmd q2 AClose; ECmd q2 AOpen; EProc 0; ELSync q3; ELSync q2; EProc 0; ELSync q2;
+   EProc 0; EProc 0; EProc 0; EProc 0; ELSync q3; ELSync q2; ELSync 1].
+(* the same without any lag, two workers: the child's Open overtakes its Close *)
+Definition stuckW1_nolag_history : list ev :=
+  let S := [ELSync 1; ELSync q2; ELSync q3] in
+  [ECmd q2 AClose; EProc 0] ++ S ++ [ECmd q2 AOpen; EProc 2] ++ S ++ [EProc 2] ++ S ++ [EProc 1] ++ S ++
+  [EProc 0] ++ S ++ [EProc 0] ++ S.
+(* D: the child is opened while the lister still shows its just-closed parent Open;
+   E: the parent is closed while the lister still shows the just-opened child Closed *)
+Definition openD_history : list ev :=
+  [ECmd q2 AClose; EProc 0; ECmd q3 AOpen; EProc 0; ELSync q3; ELSync q2; ELSync 1].
+Definition openE_history : list ev :=
+  [ECmd q3 AOpen; EProc 0; ECmd q2 AClose; EProc 0; ELSync q3; ELSync q2; ELSync 1].
 
-Lemma closed_only_when_empty_hist s0 h e q a : let s := run s0 h in
-  sst (srv s) q = Some a -> a <> SClosed -> sst (srv (step s e).1) q = Some SClosed ->
-  pgs_of (idx s) q = [].
-Proof. exact (closed_only_when_empty (run s0 h) e q a). Qed.
+(* KNOWN FINDING C13-quiescent-marked-child-stuck: "re-opening a parent re-opens the
+   children it had closed" is FALSE as a statement about quiescent end states *)
+Theorem quiescent_no_stuck_child_refuted :
+  ~ (forall h, let s := run (open3_init SOpen None) h in caught_up s = true -> law_no_stuck_child s = true).
+Proof. intros H. specialize (H stuckW1_history eq_refl). vm_compute in H. done. Qed.
 
-Lemma close_result_hist s0 h i r v : let s := run s0 h in
-  nth_error (wq s) i = Some r -> lst s !! r_q r = Some v -> r_act r = AClose ->
-  (proc s i).2 = OOk -> r_q r <> root -> q_state v <> SClosed -> q_state v <> SInvalid ->
-  sst (srv s) (r_q r) = Some (q_state v) ->
-  sst (srv (proc s i).1) (r_q r) = Some (closeish (length (pgs_of (idx s) (r_q r)))).
-Proof. exact (close_result (run s0 h) i r v). Qed.
+Example quiescent_stuck_child_without_lag :
+  let s := run (open3_init SOpen None) stuckW1_nolag_history in
+  caught_up s = true /\ law_no_stuck_child s = false /\
+  sst (srv s) q2 = Some SOpen /\ sst (srv s) q3 = Some SClosed /\ scbp (srv s) q3 = Some true.
+Proof. vm_compute. repeat split. Qed.
 
-Lemma close_propagates_hist s0 h i r v : let s := run s0 h in
-  nth_error (wq s) i = Some r -> lst s !! r_q r = Some v -> r_act r = AClose ->
-  (proc s i).2 = OOk -> r_q r <> root ->
-  is_closedish (q_state v) = false -> q_state v <> SInvalid ->
-  forall c co, lst s !! c = Some co -> q_parent co = Some (r_q r) -> is_closedish (q_state co) = false ->
-    (cbp_of (q_ann co) = Some true \/ scbp (srv (proc s i).1) c = Some true) /\
-    In (mkReq c AClose EvNone 0) (wq (proc s i).1).
-Proof. exact (close_propagates (run s0 h) i r v). Qed.
+(* KNOWN FINDING C13-quiescent-open-child-under-closed-parent: "closing a parent closes
+   its children" / "a child cannot be opened under a closed parent" are FALSE as statements
+   about quiescent end states (the code checks the parent / the child as the lister shows them) *)
+Theorem quiescent_children_follow_closed_parent_refuted :
+  ~ (forall h, let s := run (open3_init SClosed (Some (false, Some false))) h in
+               caught_up s = true -> law_children_follow_closed_parent s = true).
+Proof. intros H. specialize (H openD_history eq_refl). vm_compute in H. done. Qed.
 
-Lemma reopen_exact_hist s0 h i r v : let s := run s0 h in
-  nth_error (wq s) i = Some r -> lst s !! r_q r = Some v -> r_act r = AOpen ->
-  q_state v = SClosed \/ q_state v = SClosing \/ q_state v = SUnknown ->
-  (proc s i).2 = OOk ->
-  wq (proc s i).1 = remove_nth i (wq s) ++ reopen_reqs s (r_q r) /\
-  sst (srv (proc s i).1) (r_q r) = Some SOpen /\
-  (cbp_of (q_ann v) = Some false \/ scbp (srv (proc s i).1) (r_q r) = Some false).
-Proof. exact (reopen_exact (run s0 h) i r v). Qed.
-
-Lemma no_open_under_closed_parent_hist s0 h i r v : let s := run s0 h in
-  nth_error (wq s) i = Some r -> lst s !! r_q r = Some v -> r_act r = AOpen ->
-  parent_blocks s v = true -> q_state v <> SOpen -> q_state v <> SEmpty ->
-  (proc s i).2 = OErr /\ srv (proc s i).1 = srv s.
-Proof. exact (no_open_under_closed_parent (run s0 h) i r v). Qed.
+Example quiescent_open_child_both_orders :
+  let sD := run (open3_init SClosed (Some (false, Some false))) openD_history in
+  let sE := run (open3_init SClosed (Some (false, Some false))) openE_history in
+  caught_up sD = true /\ sst (srv sD) q2 = Some SClosed /\ sst (srv sD) q3 = Some SOpen /\
+  caught_up sE = true /\ sst (srv sE) q2 = Some SClosed /\ sst (srv sE) q3 = Some SOpen /\
+  law_children_follow_closed_parent sE = false.
+Proof. vm_compute. repeat split. Qed.
 
 Lemma laws_accept_model s e :
   law_only_by_request s e (step s e).1 = true /\
